@@ -66,17 +66,26 @@ THEOREMS = [
      'kit_lawful kit_concat cc_pending'),
     ('c01_affine_lawful',
      'kit_lawful kit_affine af_pending'),
+    ('c01_flip_lawful',
+     'kit_lawful kit_flip fl_pending'),
     ('c01_model_check_spec_check',
      'forall c : C01.Corr.case, C01.Corr.model_check c = true -> C01.Corr.spec_check c = true'),
 ]
-RULE = ("histories on 10 item types (Min, Max, Sum, MinAdd, MaxAdd, SumAdd over i64, Combinator<MinAdd,MaxAdd>, "
+RULE = ("histories on 11 item types (Min, Max, Sum, MinAdd, MaxAdd, SumAdd over i64, Combinator<MinAdd,MaxAdd>, "
         "Combinator<Combinator<MinAdd,MaxAdd>,SumAdd>, a user Concat item with non-commutative merge and Assign|Append "
-        "modifiers, a user affine-tag item mod 998244353): sizes 1-40 (mostly <= 17 and 15,16,17,31,32,33), 1-60 operations, "
+        "modifiers, a user affine-tag item mod 998244353, a user bit-flip item whose modifier type is the zero-sized () "
+        "although it is lazy): sizes 1-40 (mostly <= 17 and 15,16,17,31,32,33), 1-60 operations, "
         "set:modify:ask:bound about 2:3:3:2 plus debug(), re-construction (new / from_slice / from_iter) and a few operations "
         "violating the asserted preconditions; ranges biased to node boundaries (vl, m, m+1, vr of the implicit tree), single "
         "elements and the full range; non-trivial = a range modify or a set is later followed by a query or search over a "
-        "different, overlapping range")
-TRUSTED = ["executor harness/crates/c01 (drives rlib_segtree::Segtree with the listed item types, defines the two user items, "
+        "different, overlapping range; plus two targeted families: (a) Flip histories where a flip over a range made of "
+        "whole inner nodes is immediately followed by searches / queries that must descend through those nodes, (b) "
+        "constructions (new / from_slice / from_iter) and sets whose items carry a non-zero lazy tag of their own (MinAdd / "
+        "MaxAdd / SumAdd { md != 0 }, componentwise in the Combinators, Flip { flip: true }), in particular as the fill value "
+        "of new and as the first element of a slice, then single-element and range queries, debug(), searches, "
+        "modifications, and trees rebuilt from the items another tree returned (for (b) non-trivial also = a query after "
+        "such a construction)")
+TRUSTED = ["executor harness/crates/c01 (drives rlib_segtree::Segtree with the listed item types, defines the three user items, "
            "prints every returned item with all its fields, the debug() string and the arguments each search closure received)",
            "checks/c01.py (history generator, Coq term printer, parser of the derived-Debug rendering: the rendering is "
            "re-generated from the parsed numbers and compared with the string the implementation produced)"]
@@ -85,11 +94,13 @@ ASSUMPTIONS = ["i64 values are modelled as unbounded Z: generated values keep ev
                "lower_bound(l, _) with l >= n (out-of-bounds indexing inside the code, not asserted) is outside the model and never generated"]
 
 PM = 998244353
-KINDS = ["min", "max", "sum", "minadd", "maxadd", "sumadd", "comb2", "comb3", "concat", "affine"]
+KINDS = ["min", "max", "sum", "minadd", "maxadd", "sumadd", "comb2", "comb3", "concat", "affine", "flip"]
 CTOR = {"min": "CMin", "max": "CMax", "sum": "CSum", "minadd": "CMinAdd", "maxadd": "CMaxAdd", "sumadd": "CSumAdd",
-        "comb2": "CComb2", "comb3": "CComb3", "concat": "CConcat", "affine": "CAffine"}
-ARITY = {"min": 1, "max": 1, "sum": 1, "minadd": 2, "maxadd": 2, "sumadd": 3, "comb2": 4, "comb3": 7, "affine": 4}
-UNIT_KINDS = ("min", "max", "sum")
+        "comb2": "CComb2", "comb3": "CComb3", "concat": "CConcat", "affine": "CAffine", "flip": "CFlip"}
+ARITY = {"min": 1, "max": 1, "sum": 1, "minadd": 2, "maxadd": 2, "sumadd": 3, "comb2": 4, "comb3": 7, "affine": 4, "flip": 3}
+UNIT_KINDS = ("min", "max", "sum")          # M = () and really non-lazy
+UNIT_MOD_KINDS = UNIT_KINDS + ("flip",)     # M = (): the modifier is the unit value (Flip is lazy all the same)
+MD_KINDS = ("minadd", "maxadd", "sumadd", "comb2", "comb3", "flip")   # input items may carry a lazy tag: value [v, md]
 
 
 # ----------------------------------------------------------------------------- printing
@@ -123,13 +134,33 @@ def item_from_fields(kind, f):
         return "((VA %s %s, VA %s %s), SA %s %s %s)" % tuple(z(x) for x in f)
     if kind == "affine":
         return "(AF %s %s %s %s)" % tuple(z(x) for x in f)
+    if kind == "flip":
+        if f[2] not in (0, 1):
+            raise ValueError("bad flip flag %r" % (f,))
+        return "(FL %s %s %s)" % (z(f[0]), z(f[1]), "true" if f[2] else "false")
     raise ValueError(kind)
 
 
+def v_md(kind, v):
+    """an input item value is v, or [v, md] (MD_KINDS only): the item carries the pending lazy tag md"""
+    if isinstance(v, list):
+        if kind not in MD_KINDS or len(v) != 2:
+            raise ValueError("bad item value %r for %s" % (v, kind))
+        return v[0], v[1]
+    return v, 0
+
+
+def val_of(v):
+    return v[0] if isinstance(v, list) else v
+
+
 def input_fields(kind, v):
-    """fields of the item the executor builds from the input token v"""
-    return {"min": [v], "max": [v], "sum": [v], "minadd": [v, 0], "maxadd": [v, 0], "sumadd": [v, 1, 0],
-            "comb2": [v, 0, v, 0], "comb3": [v, 0, v, 0, v, 1, 0]}[kind] if kind != "affine" else [v % PM, 1, 1, 0]
+    """fields of the item the executor builds from the input token v (v:md for a tagged item)"""
+    if kind == "affine":
+        return [v % PM, 1, 1, 0]
+    v, md = v_md(kind, v)
+    return {"min": [v], "max": [v], "sum": [v], "minadd": [v, md], "maxadd": [v, md], "sumadd": [v, 1, md],
+            "comb2": [v, md, v, md], "comb3": [v, md, v, md, v, 1, md], "flip": [v, 1, md]}[kind]
 
 
 def coq_item_in(kind, v):
@@ -139,7 +170,7 @@ def coq_item_in(kind, v):
 
 
 def coq_mod(kind, m):
-    if kind in UNIT_KINDS:
+    if kind in UNIT_MOD_KINDS:
         return "tt"
     if kind == "concat":
         return "(%s %s)" % ("CAssign" if m[0] == "as" else "CAppend", coq_str(m[1]))
@@ -204,11 +235,15 @@ def coq_op(kind, o):
 
 
 def tok_item(kind, v):
-    return tok_str(v) if kind == "concat" else str(v)
+    if kind == "concat":
+        return tok_str(v)
+    if isinstance(v, list):
+        return "%d:%d" % v_md(kind, v)
+    return str(v)
 
 
 def tok_mod(kind, m):
-    if kind in UNIT_KINDS:
+    if kind in UNIT_MOD_KINDS:
         return "0"
     if kind == "concat":
         return "%s %s" % (m[0], tok_str(m[1]))
@@ -283,7 +318,7 @@ def parse_debug(kind, s):
     """debug() string -> list of Coq item terms; None if the rendering is not the expected one"""
     if not (s.startswith("[") and s.endswith("]")):
         return None
-    if kind in ("concat", "affine"):     # their Debug impl (in the executor) prints the item encoding
+    if kind in ("concat", "affine", "flip"):     # their Debug impl (in the executor) prints the item encoding
         body = s[1:-1]
         try:
             return [parse_enc(kind, e) for e in body.split(", ")] if body else []
@@ -390,13 +425,33 @@ def pick_value(rng, kind, style):
         return rand_str(rng, 0, 3)
     if kind == "affine":
         return rng.choice([rng.range(0, 9), rng.range(0, 9), rng.range(0, PM - 1), PM - 1, PM, PM + rng.range(1, 5)])
+    if kind == "flip":
+        return rng.below(2)
     if style == "nonneg":
         return rng.range(0, 30)
     return rng.range(-50, 50)
 
 
+def pick_md(rng, kind, style):
+    """a non-zero lazy tag for an input item"""
+    if kind == "flip":
+        return 1
+    if style == "nonneg":
+        return rng.range(1, 20)
+    m = rng.range(-20, 20)
+    return m if m else 7
+
+
+def pick_item(rng, kind, style, tagged):
+    """an input item; with probability tagged % (MD_KINDS only) it carries a non-zero lazy tag: [v, md]"""
+    v = pick_value(rng, kind, style)
+    if tagged and kind in MD_KINDS and rng.below(100) < tagged:
+        return [v, pick_md(rng, kind, style)]
+    return v
+
+
 def pick_mod(rng, kind, style):
-    if kind in UNIT_KINDS:
+    if kind in UNIT_MOD_KINDS:
         return 0
     if kind == "concat":
         return [rng.choice(["as", "ap", "ap"]), rand_str(rng, 0, 2)]
@@ -421,7 +476,7 @@ class Plain:
         self.kind, self.a = kind, None
 
     def elem(self, v):
-        return v % PM if self.kind == "affine" else v
+        return v % PM if self.kind == "affine" else val_of(v)     # a lazy tag carried by a leaf is not part of its value
 
     def construct(self, xs):
         self.a = [self.elem(v) for v in xs]
@@ -434,6 +489,8 @@ class Plain:
         for i in range(l, r + 1):
             if k in UNIT_KINDS:
                 pass
+            elif k == "flip":
+                self.a[i] = 1 - self.a[i]
             elif k == "concat":
                 self.a[i] = m[1] if m[0] == "as" else self.a[i] + m[1]
             elif k == "affine":
@@ -449,7 +506,7 @@ class Plain:
         if k == "affine":
             return sum(xs) % PM
         return {"min": min(xs), "minadd": min(xs), "max": max(xs), "maxadd": max(xs), "sum": sum(xs), "sumadd": sum(xs),
-                "comb2": (min(xs), max(xs)), "comb3": (min(xs), max(xs), sum(xs))}[k]
+                "comb2": (min(xs), max(xs)), "comb3": (min(xs), max(xs), sum(xs)), "flip": sum(xs)}[k]
 
 
 def pick_pred(rng, kind, plain, lo, hi, rev):
@@ -488,6 +545,12 @@ def pick_pred(rng, kind, plain, lo, hi, rev):
         if rng.chance(1, 3):
             return ["snd", ["ge", (hi - k + 1 if rev else k - lo + 1)]]
         return ["fst", ["ge", v + d]]
+    if kind == "flip":
+        if rng.chance(1, 6):
+            return ["snd", ["ge", (hi - k + 1 if rev else k - lo + 1)]]
+        if wrong:
+            return ["fst", ["le", v + d]]
+        return ["fst", ["ge", max(1, v + d) if rng.chance(3, 4) else v + d]]
     if kind == "concat":
         if rng.chance(1, 3):
             return ["lenge", len(v) + d]
@@ -515,16 +578,18 @@ def gen_history(rng, tier, weights, max_ops):
     n = pick_n(rng, tier)
     plain = Plain(kind)
     ops = []
+    # one history in four on a lazy built-in / Flip kind uses input items that carry a lazy tag of their own
+    tagged = rng.choice([0, 0, 0, 35]) if kind in MD_KINDS else 0
 
     def construct():
         nonlocal n
         c = rng.below(3)
         if c == 0:
-            v = pick_value(rng, kind, style)
+            v = pick_item(rng, kind, style, tagged)
             ops.append({"op": "new", "n": n, "v": v})
             plain.construct([v] * n)
         else:
-            xs = [pick_value(rng, kind, style) for _ in range(n)]
+            xs = [pick_item(rng, kind, style, tagged) for _ in range(n)]
             ops.append({"op": "slice" if c == 1 else "iter", "xs": xs})
             plain.construct(xs)
 
@@ -561,7 +626,7 @@ def gen_history(rng, tier, weights, max_ops):
         w = rng.below(total)
         if w < wset:
             i = pick_pos(rng, n, nodes)
-            v = pick_value(rng, kind, style)
+            v = pick_item(rng, kind, style, tagged)
             ops.append({"op": "set", "i": i, "v": v})
             plain.set(i, v)
         elif w < wset + wmod:
@@ -581,9 +646,180 @@ def gen_history(rng, tier, weights, max_ops):
     return {"kind": kind, "ops": ops}
 
 
+def pick_small_n(rng, tier):
+    k = rng.below(20)
+    if k < 11:
+        return rng.range(1, 9)
+    if k < 16:
+        return rng.choice([2, 3, 4, 5, 7, 8, 9, 15, 16, 17])
+    if k < 19 or tier != "thorough":
+        return rng.range(10, 20)
+    return rng.choice([31, 32, 33, rng.range(21, 48)])
+
+
+def gen_flip(rng, tier, wbound):
+    """Flip (modifier type (), lazy): a flip over a range made of whole inner nodes stays pending on them; the very next
+    operations are searches (wbound in 10) or queries that must descend through those nodes."""
+    kind = "flip"
+    n = max(2, pick_small_n(rng, tier) if rng.chance(2, 3) else pick_n(rng, tier))
+    plain = Plain(kind)
+    c = rng.below(4)
+    if c == 0:
+        v = rng.below(2)
+        ops = [{"op": "new", "n": n, "v": v}]
+        plain.construct([v] * n)
+    else:
+        xs = [pick_item(rng, kind, "any", 15 if c == 3 else 0) for _ in range(n)]
+        ops = [{"op": "slice" if c == 1 else "iter", "xs": xs}]
+        plain.construct(xs)
+    nodes = nodes_of(n)
+
+    def aimed(lo, hi, rev, t):
+        """search over [lo..k] (rev: [k..hi]) whose threshold is the number of ones of the range ending (starting) at t"""
+        q = rng.below(24)
+        if q == 0:
+            return ["T"]
+        if q == 1:
+            return ["F"]
+        if q == 2:
+            return ["snd", ["ge", (hi - t + 1 if rev else t - lo + 1)]]
+        v = plain.agg(t, hi) if rev else plain.agg(lo, t)
+        if q == 3:
+            return ["fst", ["le", v]]                  # not monotone: model only
+        return ["fst", ["ge", max(1, v + rng.choice([0, 0, 0, 0, 1, -1]))]]
+
+    for _ in range(rng.range(1, 5 if tier == "quick" else 8)):
+        vl, vr, m = rng.choice(nodes)
+        q = rng.below(10)
+        if q < 6:
+            l, r = vl, vr                              # exactly one inner node
+        elif q < 8:
+            vl2, vr2, _m2 = rng.choice(nodes)          # from a node's left end to a node's right end
+            l, r = (vl, vr2) if vl <= vr2 else (vl2, vr)
+        else:
+            l, r = pick_range(rng, n, nodes)
+        ops.append({"op": "mod", "l": l, "r": r, "m": 0})
+        plain.mod(l, r, 0)
+        if rng.chance(1, 5):
+            l2, r2 = pick_range(rng, n, nodes)         # a second flip: nested / cancelling pending flags
+            ops.append({"op": "mod", "l": l2, "r": r2, "m": 0})
+            plain.mod(l2, r2, 0)
+        for _k in range(rng.range(1, 3)):
+            q = rng.below(10)
+            if q < wbound:
+                if rng.chance(1, 2):
+                    lo = rng.choice([0, vl, vl, rng.range(0, vr), rng.range(vl, vr)])
+                    t = rng.range(max(lo, vl), vr) if rng.chance(4, 5) else rng.range(lo, n - 1)
+                    ops.append({"op": "lb", "l": lo, "p": aimed(lo, n - 1, False, t)})
+                else:
+                    hi = rng.choice([n - 1, vr, vr, rng.range(vl, n - 1), rng.range(vl, vr)])
+                    t = rng.range(vl, min(hi, vr)) if rng.chance(4, 5) else rng.range(0, hi)
+                    ops.append({"op": "lbr", "r": hi, "p": aimed(0, hi, True, t)})
+            elif q < 9:
+                c = rng.below(5)
+                if c == 0:
+                    a, b = vl, m
+                elif c == 1:
+                    a, b = m + 1, vr
+                elif c == 2:
+                    a = b = rng.range(vl, vr)
+                elif c == 3:
+                    a = rng.range(0, vr)
+                    b = rng.range(max(a, vl), n - 1)
+                else:
+                    a, b = pick_range(rng, n, nodes)
+                ops.append({"op": "ask", "l": a, "r": b})
+            elif rng.chance(1, 2):
+                i = rng.range(vl, vr)
+                v = pick_item(rng, kind, "any", 20)
+                ops.append({"op": "set", "i": i, "v": v})
+                plain.set(i, v)
+            else:
+                ops.append({"op": "dbg"})
+    return {"kind": kind, "ops": ops}
+
+
+def gen_tagged(rng, tier, wbound):
+    """Construction from items that carry a pending lazy tag of their own (fill value of new, first element of a slice,
+    elements of an iterator, set), then queries over single elements and ranges, debug(), searches, modifications."""
+    kind = rng.choice(["minadd", "maxadd", "sumadd", "comb2", "comb3", "minadd", "maxadd", "sumadd", "flip"])
+    style = "nonneg" if rng.chance(1, 2) else "any"
+    plain = Plain(kind)
+    ops = []
+    n = 0
+    nodes = []
+
+    def construct(xs_from=None):
+        nonlocal n, nodes
+        n = len(xs_from) if xs_from else pick_small_n(rng, tier)
+        c = rng.below(6)
+        if c < 2 and not xs_from:
+            v = pick_item(rng, kind, style, 100)                        # tagged fill value
+            ops.append({"op": "new", "n": n, "v": v})
+            plain.construct([v] * n)
+        else:
+            p = [100, 30, 0, 60][rng.below(4)]
+            vals = xs_from if xs_from else [pick_value(rng, kind, style) for _ in range(n)]
+            xs = [[v, pick_md(rng, kind, style)] if rng.below(100) < p else v for v in vals]
+            if c < 5 or rng.chance(1, 2):
+                xs[0] = [val_of(xs[0]), pick_md(rng, kind, style)]      # tagged first element (the filler of from_slice)
+            ops.append({"op": "slice" if c != 5 else "iter", "xs": xs})
+            plain.construct(xs)
+        nodes = nodes_of(n)
+
+    construct()
+    for _ in range(rng.range(2, 9 if tier == "quick" else 14)):
+        q = rng.below(20)
+        if q < 4:
+            i = rng.choice([0, 0, min(1, n - 1), n - 1, rng.below(n)])
+            ops.append({"op": "ask", "l": i, "r": i})
+        elif q < 8:
+            l, r = (0, n - 1) if rng.chance(1, 3) else pick_range(rng, n, nodes)
+            ops.append({"op": "ask", "l": l, "r": r})
+        elif q < 10:
+            ops.append({"op": "dbg"})
+        elif q < 10 + wbound:
+            pos = pick_pos(rng, n, nodes)
+            if rng.chance(1, 2):
+                ops.append({"op": "lb", "l": pos, "p": pick_pred(rng, kind, plain, pos, n - 1, False)})
+            else:
+                ops.append({"op": "lbr", "r": pos, "p": pick_pred(rng, kind, plain, 0, pos, True)})
+        elif q < 15:
+            l, r = pick_range(rng, n, nodes)
+            md = pick_mod(rng, kind, style)
+            ops.append({"op": "mod", "l": l, "r": r, "m": md})
+            plain.mod(l, r, md)
+        elif q < 18:
+            i = pick_pos(rng, n, nodes)
+            v = pick_item(rng, kind, style, 80)
+            ops.append({"op": "set", "i": i, "v": v})
+            plain.set(i, v)
+        elif q < 19:
+            construct(list(plain.a))        # like a tree rebuilt from the items another tree returned after modifications
+        else:
+            construct()
+    # always end on something observable
+    if ops[-1]["op"] not in ("ask", "dbg", "lb", "lbr"):
+        ops.append({"op": "ask", "l": 0, "r": n - 1} if rng.chance(1, 2) else {"op": "dbg"})
+    return {"kind": kind, "ops": ops}
+
+
+def interleave(lists):
+    """one list in which every input list is spread evenly (the driver samples prefixes and strides of it)"""
+    keyed = []
+    for j, xs in enumerate(lists):
+        for i, x in enumerate(xs):
+            keyed.append(((i + 0.5) / len(xs), j, i, x))
+    keyed.sort(key=lambda t: t[:3])
+    return [t[3] for t in keyed]
+
+
 def generate(rng, tier):
-    count = 1400 if tier == "quick" else 30000
-    return [gen_history(rng, tier, (2, 3, 3, 2), 60) for _ in range(count)]
+    count, nflip, ntag = (1400, 120, 200) if tier == "quick" else (30000, 3000, 5000)
+    r1, r2, r3 = rng.fork("hist"), rng.fork("flip"), rng.fork("tagged")
+    return interleave([[gen_history(r1, tier, (2, 3, 3, 2), 60) for _ in range(count)],
+                       [gen_flip(r2, tier, 4) for _ in range(nflip)],
+                       [gen_tagged(r3, tier, 3) for _ in range(ntag)]])
 
 
 # ----------------------------------------------------------------------------- evidence helpers
@@ -600,19 +836,37 @@ def op_range(o):
     return None
 
 
+def op_tagged(o):
+    """the operation's input items carry a non-zero lazy tag"""
+    if o["op"] in ("new", "set"):
+        return isinstance(o["v"], list) and o["v"][1] != 0
+    if o["op"] in ("slice", "iter"):
+        return any(isinstance(v, list) and v[1] != 0 for v in o["xs"])
+    return False
+
+
+def has_tagged(c):
+    return any(op_tagged(o) for o in c["ops"])
+
+
 def nontrivial(c, obs):
-    writes = []
+    writes, tagged = [], False
     for o in c["ops"]:
         t = o["op"]
         if t in ("new", "slice", "iter"):
             writes = []
+            tagged = op_tagged(o)
         elif t in ("mod", "set"):
             writes.append(op_range(o))
         elif t in ("ask", "lb", "lbr"):
+            if tagged:
+                return True
             l, r = op_range(o)
             for (a, b) in writes:
                 if a <= r and l <= b and (a, b) != (l, r):
                     return True
+        elif t == "dbg" and tagged:
+            return True
     return False
 
 
@@ -624,7 +878,7 @@ def size_of(c):
 def classify(c, obs):
     n = size_of(c)
     cls = "n=1" if n == 1 else ("n<=8" if n <= 8 else ("n<=17" if n <= 17 else "n>17"))
-    return "%s/%s%s" % (c["kind"], cls, "/pow2" if n & (n - 1) == 0 else "")
+    return "%s%s/%s%s" % (c["kind"], "+tag" if has_tagged(c) else "", cls, "/pow2" if n & (n - 1) == 0 else "")
 
 
 def clamp_ops(kind, ops):
@@ -672,28 +926,44 @@ def shrink(c):
         for xs2 in (xs[:len(xs) // 2], xs[:-1], xs[1:]):
             if xs2:
                 out.append(dict(c, ops=clamp_ops(kind, [dict(o0, xs=xs2)] + ops[1:])))
+    # items without their lazy tag / with a simpler value
+    for i, o in enumerate(ops):
+        if o["op"] in ("set", "new") and isinstance(o.get("v"), list):
+            out.append(dict(c, ops=ops[:i] + [dict(o, v=o["v"][0])] + ops[i + 1:]))
+            if o["v"][0] not in (0, 1):
+                out.append(dict(c, ops=ops[:i] + [dict(o, v=[0, o["v"][1]])] + ops[i + 1:]))
+        if o["op"] in ("slice", "iter"):
+            xs = o["xs"]
+            tg = [j for j, v in enumerate(xs) if isinstance(v, list)]
+            if len(tg) > 1:      # keep the first tag only / drop the first tag only
+                out.append(dict(c, ops=ops[:i] + [dict(o, xs=[v if j == tg[0] else val_of(v) for j, v in enumerate(xs)])] + ops[i + 1:]))
+                out.append(dict(c, ops=ops[:i] + [dict(o, xs=[val_of(v) if j == tg[0] else v for j, v in enumerate(xs)])] + ops[i + 1:]))
+            elif len(tg) == 1:
+                out.append(dict(c, ops=ops[:i] + [dict(o, xs=[val_of(v) for v in xs])] + ops[i + 1:]))
     # simpler values
     for i, o in enumerate(ops):
         if o["op"] in ("set", "new") and kind not in ("concat",) and o.get("v") not in (0, 1):
             out.append(dict(c, ops=ops[:i] + [dict(o, v=0)] + ops[i + 1:]))
-        if o["op"] == "mod" and kind not in UNIT_KINDS + ("concat", "affine") and o["m"] not in (0, 1):
+        if o["op"] == "mod" and kind not in UNIT_MOD_KINDS + ("concat", "affine") and o["m"] not in (0, 1):
             out.append(dict(c, ops=ops[:i] + [dict(o, m=1)] + ops[i + 1:]))
     return out
 
 
 MANIFEST = {
-    "text": "Coq theorems (25 pinned, no axioms) about an executable Gallina transcription of rlib_segtree::Segtree (new / from_slice / "
+    "text": "Coq theorems (26 pinned, no axioms) about an executable Gallina transcription of rlib_segtree::Segtree (new / from_slice / "
             "from_iter, set, ask, modify, lower_bound, lower_bound_rev, debug), generic over a lawful-item interface (no "
             "commutativity of merges or modifiers): representation invariant (c01_rep_length/top/leaf_iff/push), c01_build_correct, "
             "c01_set_correct, c01_modify_correct (only positions l..r change, each by the modifier), c01_ask_correct / "
             "c01_ask_tree_correct (answer = in-order merge of the plain array), c01_debug_correct, c01_history / c01_kit_history "
             "(every finite history, precondition violations included, matches the plain-array specification), lawfulness of Min, "
             "Max, Sum, MinAdd, MaxAdd, SumAdd over Z, of the Combinator of lawful items (hence every nesting), of a string-list "
-            "concatenation item with Assign|Append and of an affine-tag item mod 998244353; c01_combinator_side_by_side; "
+            "concatenation item with Assign|Append, of an affine-tag item mod 998244353 and of a bit-flip item that is lazy "
+            "although its modifier type is the zero-sized () (c01_flip_lawful); c01_combinator_side_by_side; "
             "c01_model_check_spec_check.  Every run ties the model to the code: the executor drives the real Segtree on generated "
-            "histories for 10 item types and Coq checks model = implementation (all fields, lazy tags included) and "
-            "implementation |= plain-array specification on every history.",
-    "level_note": "Trusted: Coq kernel + vm_compute; the Rust executor (which also defines the two user items) and the Python "
+            "histories for 11 item types - including constructions from items that carry a lazy tag of their own (fill value of "
+            "new, first element of from_slice) and flips left pending on inner nodes - and Coq checks model = implementation "
+            "(all fields, lazy tags included) and implementation |= plain-array specification on every history.",
+    "level_note": "Trusted: Coq kernel + vm_compute; the Rust executor (which also defines the three user items) and the Python "
                   "printer/parsers; i64 modelled as unbounded Z (generated values stay below 2^40); the model decides leaf-ness by "
                   "shape where the code tests vl == vr (proved equivalent under the invariant); lower_bound(l >= n) (unasserted "
                   "out-of-bounds panic in the crate) is outside the model; the correspondence is sampled, not exhaustive.",
